@@ -656,15 +656,29 @@ def traced_model(ctx, rng, variant=0):
         fe = getattr(th, "freeEnergy" + which)
         lo = max(fe.minPossibleTemperature[0], win[0])
         hi = min(fe.maxPossibleTemperature[0], win[1])
-        keep = lo + 3 * dT < Tn < hi - 3 * dT
-        ctx.count("retrace_same_window", bucket="limits kept" if keep else "limits lifted")
-        if not keep:
-            # every trace reports a range 2 dT short of what it covered (issue #145), and the
-            # next one is clipped to it: where that would push the starting temperature out
-            # of the window (tracePhase then fails, not C10's business) the limits are reset
+        # limits NOT lifted: every trace reports a range 2 dT short of what it covered (issue
+        # #145) and the next one is clipped to it, but never past the starting temperature;
+        # the clipped window may therefore start or end AT Tn (one-sided trace).  The only
+        # legitimate refusal is the documented assertion when the span left is below 4 dT.
+        span = max(hi, Tn) - min(lo, Tn)
+        inside = lo < Tn < hi
+        try:
+            trace(which, st, win[0], win[1], dT, **kw)
+            ctx.count("retrace_same_window", bucket="Tn inside the clipped window" if inside
+                      else "clipped window ends at Tn")
+        except AssertionError as exc:
+            ctx.count("retrace_same_window", bucket="refused: span below 4 dT")
+            if "Temperature range negative" not in str(exc) or span > 4.5 * dT:
+                ctx.fail_input(
+                    "tracePhase%s refused a re-trace over the window of the first trace (%s) "
+                    "although the span left after clipping is %.4g = %.2f dT [%s]" % (
+                        (win[0], win[1], dT), exc, span, span / dT, st),
+                    dict(kind="retrace_refused", phase=which, case=dict(case, stage=st)),
+                    key="retrace-refused:" + which)
+            # go on with the history as a user would: limits reset, traced again
             fe.minPossibleTemperature = [0.0, False]
             fe.maxPossibleTemperature = [np.inf, False]
-        trace(which, st, win[0], win[1], dT, **kw)
+            trace(which, st, win[0], win[1], dT, **kw)
     check(st)
     if variant == 0:
         ex = cur["ex"]
